@@ -25,13 +25,14 @@ static void run_client(const unsigned char* s, size_t n, const size_t* cuts, int
       memcpy(win, s + consumed, buffered);
       vh_ev_clear();
       va_reset_counters();
-      struct cbor_decoder_result r = cbor_stream_decode(win, buffered, &vh_recording_callbacks, NULL);
+      struct cbor_decoder_result r = cbor_stream_decode(win, buffered, &vh_recording_callbacks, VH_CTX);
       fprintf(vh_out, "{\"e\":\"call\",\"buffered\":%zu", buffered);
       vh_kbytes("win", win, buffered < 10 ? buffered : 10);
       vh_kstr("st", r.status == CBOR_DECODER_FINISHED ? "fin" : r.status == CBOR_DECODER_NEDATA ? "nedata" : "error");
       vh_kint("read", (long long)r.read);
       vh_ku64("req", r.required);
       vh_kint("calls", vh_ev.calls);
+  vh_kbool("ctx", !vh_ev.ctx_bad);
       vh_kstr("slot", vh_ev.slot);
       vh_kbytes("arg", vh_ev.arg, vh_ev.arglen);
       vh_kint("off", vh_ev.data ? (long long)(vh_ev.data - win) : 0);
